@@ -332,6 +332,25 @@ theorem foldl_ifwdEntry_hr {b : Nat} (es : List (BitVec 16 × Bool × BitVec 32)
   | nil => exact Nat.le_refl _
   | cons e es ih => exact Nat.le_trans (ih _ (ifwdEntry_allQ_g cinv_gpres hex e)) (ifwdEntry_hr s e hex hb)
 
+theorem ensureStreams_hr (ids : List (BitVec 16)) (s : St) : heldRegistered (ensureStreams s ids).1 = heldRegistered s := by
+  induction ids generalizing s with
+  | nil => rfl
+  | cons id ids ih =>
+    simp only [ensureStreams]
+    split
+    · exact ih s
+    · split
+      · rw [ih]; exact createStream_hr s id true
+      · exact createStream_hr s id true
+
+/-- the pre-check of the FORWARD-TSN handlers keeps everything the potential reads -/
+theorem ensureStreams_pot {M b : Nat} (ids : List (BitVec 16)) (s : St) (hex : AllQ (Pc b) s) (I : RecvQ.Inv s.pq) (h : Pot M s) :
+    AllQ (Pc b) (ensureStreams s ids).1 ∧ RecvQ.Inv (ensureStreams s ids).1.pq ∧ Pot M (ensureStreams s ids).1 ∧
+    (ensureStreams s ids).1.pq = s.pq ∧ (ensureStreams s ids).1.maxBuf = s.maxBuf :=
+  ⟨ensureStreams_allQ_g cinv_gpres ids hex, by rw [ensureStreams_pq]; exact I,
+   h.mono (Nat.le_of_eq (ensureStreams_hr ids s)) (by rw [ensureStreams_pq]; exact Nat.le_refl _) (ensureStreams_maxBuf ids s)
+     (by rw [ensureStreams_pq]), ensureStreams_pq ids s, ensureStreams_maxBuf ids s⟩
+
 theorem handleFwd_pot {M b : Nat} (s : St) (c : TSN) (es : List (BitVec 16 × BitVec 16)) (hex : AllQ (Pc b) s) (hb : b < 2^63)
     (I : RecvQ.Inv s.pq) (h : Pot M s) : Pot M (handleFwd s c es) := by
   unfold handleFwd
@@ -341,25 +360,30 @@ theorem handleFwd_pot {M b : Nat} (s : St) (c : TSN) (es : List (BitVec 16 × Bi
     · exact h
     · split
       · exact h
-      · -- advance, purge, pop loop
-        let s1 : St := { s with pq := RecvQ.advance s.pq c }
-        have hex1 : AllQ (Pc b) s1 := hex
-        have h1 : Pot M s1 := Pot.mono (s := s) (s' := s1) (Nat.le_refl _) (RecvQ.unset_advance I c) rfl (RecvQ.advance_maxOff _ _) h
-        have hf_hr := foldl_fwdEntry_hr es s1 hex1 hb
-        have hf_ex := exact_of_pc (foldl_fwdEntry_allQ_g cinv_gpres es hex1) hb
-        have hf_pq : (es.foldl fwdEntry s1).pq = s1.pq := foldl_fwdEntry_pq es s1
-        have hf_mb : (es.foldl fwdEntry s1).maxBuf = s1.maxBuf := foldl_fwdEntry_maxBuf es s1
-        have h2 : Pot M (es.foldl fwdEntry s1) :=
-          Pot.mono (s := s1) (s' := es.foldl fwdEntry s1) hf_hr (by rw [hf_pq]; exact Nat.le_refl _) hf_mb (by rw [hf_pq]) h1
-        let s3 : St := { es.foldl fwdEntry s1 with streams := (es.foldl fwdEntry s1).streams.map fun x => { x with q := x.q.forwardTSNForUnordered c } }
-        have hle3 : heldRegistered s3 ≤ heldRegistered (es.foldl fwdEntry s1) :=
-          sumHeld_map_le _ _ (fun x hx => step0_held_le x.q (hf_ex.1 x hx) (.fwdU c) rfl)
-        have h3 : Pot M s3 := Pot.mono (s := es.foldl fwdEntry s1) (s' := s3) hle3 (Nat.le_refl _) rfl rfl h2
-        have hI3 : RecvQ.Inv s3.pq := by
-          show RecvQ.Inv (es.foldl fwdEntry s1).pq
-          rw [hf_pq]; exact RecvQ.advance_inv I c
-        show Pot M (ackStep s3 false)
-        exact ackStep_pot s3 false hI3 h3
+      · obtain ⟨hexe, Ie, he, _, _⟩ := ensureStreams_pot (M := M) (es.map (·.1)) s hex I h
+        generalize ensureStreams s (es.map (·.1)) = e at hexe Ie he ⊢
+        dsimp only
+        split
+        · exact he
+        · -- advance, purge, pop loop
+          let s1 : St := { e.1 with pq := RecvQ.advance e.1.pq c }
+          have hex1 : AllQ (Pc b) s1 := hexe
+          have h1 : Pot M s1 := Pot.mono (s := e.1) (s' := s1) (Nat.le_refl _) (RecvQ.unset_advance Ie c) rfl (RecvQ.advance_maxOff _ _) he
+          have hf_hr := foldl_fwdEntry_hr es s1 hex1 hb
+          have hf_ex := exact_of_pc (foldl_fwdEntry_allQ_g cinv_gpres es hex1) hb
+          have hf_pq : (es.foldl fwdEntry s1).pq = s1.pq := foldl_fwdEntry_pq es s1
+          have hf_mb : (es.foldl fwdEntry s1).maxBuf = s1.maxBuf := foldl_fwdEntry_maxBuf es s1
+          have h2 : Pot M (es.foldl fwdEntry s1) :=
+            Pot.mono (s := s1) (s' := es.foldl fwdEntry s1) hf_hr (by rw [hf_pq]; exact Nat.le_refl _) hf_mb (by rw [hf_pq]) h1
+          let s3 : St := { es.foldl fwdEntry s1 with streams := (es.foldl fwdEntry s1).streams.map fun x => { x with q := x.q.forwardTSNForUnordered c } }
+          have hle3 : heldRegistered s3 ≤ heldRegistered (es.foldl fwdEntry s1) :=
+            sumHeld_map_le _ _ (fun x hx => step0_held_le x.q (hf_ex.1 x hx) (.fwdU c) rfl)
+          have h3 : Pot M s3 := Pot.mono (s := es.foldl fwdEntry s1) (s' := s3) hle3 (Nat.le_refl _) rfl rfl h2
+          have hI3 : RecvQ.Inv s3.pq := by
+            show RecvQ.Inv (es.foldl fwdEntry s1).pq
+            rw [hf_pq]; exact RecvQ.advance_inv Ie c
+          show Pot M (ackStep s3 false)
+          exact ackStep_pot s3 false hI3 h3
 
 theorem handleIFwd_pot {M b : Nat} (s : St) (c : TSN) (es : List (BitVec 16 × Bool × BitVec 32)) (hex : AllQ (Pc b) s) (hb : b < 2^63)
     (I : RecvQ.Inv s.pq) (h : Pot M s) : Pot M (handleIFwd s c es) := by
@@ -368,18 +392,22 @@ theorem handleIFwd_pot {M b : Nat} (s : St) (c : TSN) (es : List (BitVec 16 × B
   · exact h
   · split
     · exact h
-    · let s1 : St := { s with pq := RecvQ.advance s.pq c }
-      have hex1 : AllQ (Pc b) s1 := hex
-      have h1 : Pot M s1 := Pot.mono (s := s) (s' := s1) (Nat.le_refl _) (RecvQ.unset_advance I c) rfl (RecvQ.advance_maxOff _ _) h
-      have hf_hr := foldl_ifwdEntry_hr es s1 hex1 hb
-      have hf_pq : (es.foldl ifwdEntry s1).pq = s1.pq := foldl_ifwdEntry_pq es s1
-      have hf_mb : (es.foldl ifwdEntry s1).maxBuf = s1.maxBuf := foldl_ifwdEntry_maxBuf es s1
-      have h2 : Pot M (es.foldl ifwdEntry s1) :=
-        Pot.mono (s := s1) (s' := es.foldl ifwdEntry s1) hf_hr (by rw [hf_pq]; exact Nat.le_refl _) hf_mb (by rw [hf_pq]) h1
-      have hI2 : RecvQ.Inv (es.foldl ifwdEntry s1).pq := by rw [hf_pq]; exact RecvQ.advance_inv I c
-      show Pot M (ackStep (es.foldl ifwdEntry s1) false)
-      exact ackStep_pot _ false hI2 h2
-
+    · obtain ⟨hexe, Ie, he, _, _⟩ := ensureStreams_pot (M := M) (es.map (·.1)) s hex I h
+      generalize ensureStreams s (es.map (·.1)) = e at hexe Ie he ⊢
+      dsimp only
+      split
+      · exact he
+      · let s1 : St := { e.1 with pq := RecvQ.advance e.1.pq c }
+        have hex1 : AllQ (Pc b) s1 := hexe
+        have h1 : Pot M s1 := Pot.mono (s := e.1) (s' := s1) (Nat.le_refl _) (RecvQ.unset_advance Ie c) rfl (RecvQ.advance_maxOff _ _) he
+        have hf_hr := foldl_ifwdEntry_hr es s1 hex1 hb
+        have hf_pq : (es.foldl ifwdEntry s1).pq = s1.pq := foldl_ifwdEntry_pq es s1
+        have hf_mb : (es.foldl ifwdEntry s1).maxBuf = s1.maxBuf := foldl_ifwdEntry_maxBuf es s1
+        have h2 : Pot M (es.foldl ifwdEntry s1) :=
+          Pot.mono (s := s1) (s' := es.foldl ifwdEntry s1) hf_hr (by rw [hf_pq]; exact Nat.le_refl _) hf_mb (by rw [hf_pq]) h1
+        have hI2 : RecvQ.Inv (es.foldl ifwdEntry s1).pq := by rw [hf_pq]; exact RecvQ.advance_inv Ie c
+        show Pot M (ackStep (es.foldl ifwdEntry s1) false)
+        exact ackStep_pot _ false hI2 h2
 
 /-! ### the invariant along runs -/
 
